@@ -38,6 +38,27 @@ add('C02', 'exploration', 'exhaustive product of missing-key options x present/a
     'bodies, cassette traffic and store bytes are compared with the documented policy order.',
     'Policy order as documented (fallbacks, run original, substitute, else RecordingKeyError); full product on the in-memory cassette, slice on file and S3(fake).')
 
+add('C04', 'model_checking', 'exhaustive fault-placement enumeration vs undecorated twin (sequential) + preemption-bounded schedule exploration of worker-thread programs on the real recorder',
+    'Sequential: every base program (7 letters, length <=2/3) x every single and paired placement of the tolerated faults (key failure, handler failure, '
+    'unserialisable value / failing copy, exception or interrupt in a body, discard/force in a body or between steps) x endings x 23 global variants '
+    '(extractor kinds incl. junk, failing save, sampling, copy-on, class-level, subclass, skipped, disabled) is run decorated and undecorated: identical '
+    'returned / raised objects, every body exactly once with the identical argument objects, no framework exception into the service, no cassette '
+    'traffic when disabled. Threaded: see DESIGN §3 C04.',
+    'Twin = same interpreter with identity decorators; in-memory cassette; python -O not considered.')
+add('C05', 'fault_enumeration', 'exhaustive single/pair fault-placement enumeration on the real recorder with a spy cassette vs reference finalisation semantics',
+    'Every base program x every single and paired placement of capture faults, discards, sampling outcomes, ordinary exceptions and interrupts at every '
+    'step boundary and inside every intercepted body (plus discard/force issued from the metadata extractor) x endings x global variants: the spy '
+    'cassette must see create -> exactly one of save/abort, saved iff the reference says every interception was captured and the policy keeps it, the '
+    'store must hold exactly the captured interceptions, a fault-free second operation must work, and every stored complete recording is replayed '
+    'without a missing-key error.',
+    'Reference finalisation semantics of DESIGN appendix A; BaseException caught by the program itself is outside the quantifier.')
+add('C18', 'fault_enumeration', 'exhaustive termination-point x extractor-kind enumeration on the real recorder; metadata fetched back from every cassette vs reference',
+    'The same program x fault-placement space with termination by return / ordinary exception / interrupt at every step boundary and inside every body, '
+    'instance / class-level / subclass operations, 10 extractor kinds, recording disabled mid-run; metadata fetched back from the cassette (memory; '
+    'file and S3(fake) for a slice) must state class, duration == harness clock delta, UTC timestamp, incomplete, exception flag and exactly the '
+    'extractor\'s keys (none if it failed); the default lookup returns exactly the complete recordings.',
+    'Harness clock replaces time()/datetime in tape_recorder (seams found by scanning); timestamp expected in UTC as on the pinned tree.')
+
 NOT_YET = {}
 
 
